@@ -193,3 +193,28 @@ def cut_points_of(token, n):
         if pos < n:
             out.append(pos)
     return out
+
+
+def max_rcv(mtu):
+    """generator-side copy of coap_session_max_pdu_size_internal (aims sizes at the cap; the
+    verdict never depends on it)"""
+    if mtu <= 2:
+        return 0
+    if mtu <= 14:
+        return mtu - 2
+    if mtu <= 271:
+        return mtu - 3
+    if mtu <= 65808:
+        return mtu - 4
+    return mtu - 6
+
+
+def gen_capfit(r, mtu, d):
+    """a request whose declared size (everything after the header) is max_rcv(mtu) + d"""
+    target = max_rcv(mtu) + d
+    tl = r.choice([0, 2, 8])
+    opts = [(11, b"c")]
+    fixed = tl + 2 + 1               # token + option 11 "c" + payload marker
+    pl = max(1, target - fixed)
+    f = gen_wire.py_serialize("tcp", 0, r.choice([2, 3]), 0, gen_wire.rbytes(r, tl), opts, gen_wire.rbytes(r, pl))
+    return f
